@@ -66,6 +66,23 @@ Definition spec_route_b (segs be : list tok) (vals : list string) (o : robs) : b
   | ONotRouted _ | OPanic => false
   end.
 
+(* A request that carries a query string the endpoint forwards: the backend is called with the
+   url_pattern (placeholders replaced, wherever they stand - path part or query part of the
+   pattern) and the forwarded client query after it, joined by "?" or "&".  What exactly is
+   appended is C10's subject; C09 only demands that the substituted url_pattern is all there. *)
+Definition extends_b (m p : string) : bool :=
+  str_eqb p m || prefix (m ++ "&") p || prefix (m ++ "?") p.
+Definition spec_routeq_b (segs be : list tok) (vals : list string) (o : robs) : bool :=
+  let names := ph_names segs in
+  match o with
+  | ORejected => true
+  | OPath p =>
+      negb (undeclared_b names (ph_names be)) &&
+      (uses_seq_ref_b names (ph_names be) ||
+       (extends_b (expected_path be (combine names vals)) p && no_placeholder_left p))
+  | ONotRouted _ | OPanic => false
+  end.
+
 (* ---- oracle for Init ---- *)
 Definition spec_init_b (declared used : list string) (accepted : bool) : bool :=
   negb (undeclared_b declared used) || negb accepted.
